@@ -304,7 +304,11 @@ pub(crate) fn add_set_remove<W, R, T>(
             rt.can_allocate((set.len - 1)* size_of::<usize>())?;
             let mut new_dict = HashMap::from_iter(set.inner.iter().filter(|(k, _)| k != &&hash_key).map(|(k, b)| (*k, b.clone())));
             let old_bucket = &set.inner[&hash_key];
-            new_dict.insert(hash_key, old_bucket.iter().take(idx).chain(old_bucket.iter().skip(idx + 1)).cloned().collect());
+            // an emptied bucket is dropped rather than kept: `hash` folds over the buckets, so a leftover
+            // empty bucket would make equal collections hash differently
+            if old_bucket.len() > 1 {
+                new_dict.insert(hash_key, old_bucket.iter().take(idx).chain(old_bucket.iter().skip(idx + 1)).cloned().collect());
+            }
             Ok(manage_native!(
                 XSet::new(set.hash_func.clone(), set.eq_func.clone(), new_dict, set.len-1),
                 rt
@@ -335,7 +339,11 @@ pub(crate) fn add_set_discard<W, R, T>(
             rt.can_allocate((set.len - 1)* size_of::<usize>())?;
             let mut new_dict = HashMap::from_iter(set.inner.iter().filter(|(k, _)| k != &&hash_key).map(|(k, b)| (*k, b.clone())));
             let old_bucket = &set.inner[&hash_key];
-            new_dict.insert(hash_key, old_bucket.iter().take(idx).chain(old_bucket.iter().skip(idx + 1)).cloned().collect());
+            // an emptied bucket is dropped rather than kept: `hash` folds over the buckets, so a leftover
+            // empty bucket would make equal collections hash differently
+            if old_bucket.len() > 1 {
+                new_dict.insert(hash_key, old_bucket.iter().take(idx).chain(old_bucket.iter().skip(idx + 1)).cloned().collect());
+            }
             Ok(manage_native!(
                 XSet::new(set.hash_func.clone(), set.eq_func.clone(), new_dict, set.len-1),
                 rt
